@@ -169,6 +169,18 @@ def generate(rng: Prng, tier: str) -> dict:
         maxpts = w.choice([1, 2, 3, 5, 12, 40])
         budget = [w.choice([6, 12, 30, 80, 200])]
     doc = {"label": w.choice(LABELS), "body": gen_body(w, 0, maxdepth, maxpts, budget)}
+    wd = rng.stream("wide")
+    if not big and wd.chance(0.012):
+        # "any number of alternatives": one split with more than a thousand of them (mostly single points, some empty),
+        # optionally one level down
+        nalt = wd.randint(1050, 2200)
+        alts = [None if wd.chance(0.1) else {"points": [[gen_num(wd) for _ in range(4)] for _ in range(wd.choice([1, 1, 2]))]}
+                for _ in range(nalt)]
+        wide = {"points": [[gen_num(wd) for _ in range(4)] for _ in range(wd.randint(1, 3))], "split": alts}
+        if wd.chance(0.4):
+            wide = {"points": [[gen_num(wd) for _ in range(4)]], "split": [{"points": [[gen_num(wd) for _ in range(4)]]}, wide]}
+        doc["body"] = wide
+        big = True
     seps = [w.choice(SEPS) for _ in range(w.randint(1, 7))]
     variants = []
     kinds = ["bare", "decorated", "truncate", "corrupt", "eio"]
